@@ -48,6 +48,16 @@ def scalar_equiv(a, b):
     return f"scalar {a!r} != {b!r}"
 
 
+def _norm_name(info):
+    """None and NaN both mean 'no name' (pandas 3 infers str-typed label Indexes in which None becomes NaN)"""
+    kind, name = info
+    if isinstance(name, float) and name != name:
+        name = None
+    if isinstance(name, tuple):
+        name = tuple(None if (isinstance(n, float) and n != n) else n for n in name)
+    return (kind, name)
+
+
 def container_kind(x):
     if isinstance(x, pd.DataFrame):
         return "frame"
@@ -219,13 +229,14 @@ def equiv(a, b, order=True, index=True, dtypes="kind", names=True):
         names = False
     if ka == "index":
         index = False
-    if names and ia != ib:
+    if names and _norm_name(ia) != _norm_name(ib):
         return f"name {ia!r} != {ib!r}"
     if fa.shape[1] != fb.shape[1] or list(map(str, fa.columns)) != list(map(str, fb.columns)) or list(fa.columns) != list(fb.columns):
         return f"columns {list(fa.columns)!r} != {list(fb.columns)!r}"
     if len(fa) != len(fb):
         return f"length {len(fa)} != {len(fb)}"
-    if index and names and tuple(fa.index.names) != tuple(fb.index.names):
+    if index and names and len(fa) > 0 and tuple(fa.index.names) != tuple(fb.index.names):
+        # (0-row results: pandas itself is inconsistent about keeping index names of empty inputs)
         return f"index names {tuple(fa.index.names)!r} != {tuple(fb.index.names)!r}"
     if index and fa.index.nlevels != fb.index.nlevels:
         return f"index nlevels {fa.index.nlevels} != {fb.index.nlevels}"
